@@ -174,6 +174,16 @@ Theorem C12_negative_margins_rejected : forall st t r b l, t < 0 \/ r < 0 \/ b <
 Proof. exact negative_margins_rejected. Qed.
 Print Assumptions C12_negative_margins_rejected.
 
+(* calls that name no page setting - headers, footers, the first-page flag, body content: op Other, tied to the code by
+   the correspondence check - change no stored section; a history reads the same with and without them *)
+Theorem C12_other_calls_change_nothing : forall st, step st Other = (st, true) /\ step st Reopen = (st, true).
+Proof. exact other_calls_change_nothing. Qed.
+Print Assumptions C12_other_calls_change_nothing.
+
+Theorem C12_other_calls_in_a_history : forall ops1 ops2 st, run (ops1 ++ Other :: ops2) st = run (ops1 ++ ops2) st.
+Proof. exact other_calls_in_a_history. Qed.
+Print Assumptions C12_other_calls_in_a_history.
+
 (* the behaviour of the pinned commit (before the fix: commit) violated (ii): witness *)
 Theorem C12_refuted_custom_landscape_before_fix :
   let st1 := fst (step_with false empty_sect (SetAll landscape_custom)) in
